@@ -45,6 +45,10 @@ func (c *twistPoint) Set(a *twistPoint) {
 
 // IsOnCurve returns true iff c is on the curve.
 func (c *twistPoint) IsOnCurve() bool {
+	// checked on a copy: the check must not write to the point
+	a := &twistPoint{}
+	a.Set(c)
+	c = a
 	c.MakeAffine()
 	if c.IsInfinity() {
 		return true
